@@ -294,6 +294,68 @@ def component_cases(ctx: Ctx):
                         f'model evaluations is {float(ref)}', case)
 
 
+def select_cases(ctx: Ctx):
+    """which stored points SparseGrid.get_by_coord(y_vars, skip_nan=True) hands out, versus Model/Select.v training_rows on the same table
+    (stored values with the imputed ones substituted): only the requested quantities decide"""
+    from amisc.training import SparseGrid
+    rng = ctx.rng
+    lines, meta = [], []
+    for n in range(ctx.pick(60, 600)):
+        nq = rng.randint(1, 4); npts = rng.randint(1, 6)
+        qn = [f'q{j}' for j in range(nq)]
+        td = SparseGrid()
+        td.x_grids['x'] = [k / 8 for k in range(npts)]
+        alpha = ()
+        td.yi_map[alpha] = {}; td.yi_nan_map[alpha] = {}; td.error_map[alpha] = {}
+        rows = []
+        for k in range(npts):
+            # an imputed record, when it exists, covers every quantity stored at the point (as impute_missing_data writes it)
+            stored, eff, imputed = {}, [], {}
+            has_imputed = rng.random() < 0.4
+            for j, name in enumerate(qn):
+                r = rng.random()
+                val = float(rng.randint(-9, 9))
+                if r < 0.6:
+                    stored[name] = val; eff.append([int(val)])
+                elif r < 0.9:
+                    stored[name] = float('nan')
+                    if has_imputed:
+                        imputed[name] = val; eff.append([int(val)])                   # missing, imputed
+                    else:
+                        eff.append([])                                                # missing, nothing imputed
+                else:
+                    eff.append([])                                                    # not returned at all (evaluation raised in an all-failing call)
+            td.yi_map[alpha][(k,)] = stored
+            if has_imputed and imputed:
+                td.yi_nan_map[alpha][(k,)] = {**{m: v for m, v in stored.items() if v == v}, **imputed}
+            rows.append(eff)
+        req = sorted(rng.sample(range(nq), rng.randint(1, nq)))
+        case = {'select_case': n, 'quantities': nq, 'requested': req, 'rows (after imputation; [] = missing)': rows}
+        ctx.case(case, nontrivial=npts >= 2 and nq >= 2, kind='select')
+        try:
+            xi, yi = td.get_by_coord(alpha, [(k,) for k in range(npts)], y_vars=[qn[j] for j in req], skip_nan=True)
+        except Exception as e:
+            ctx.violate('C05:get_by_coord-raises', f'{type(e).__name__}: {e}', case); continue
+        got_rows = []
+        if yi:
+            cols = [np.ravel(np.asarray(yi[qn[j]], dtype=float)).tolist() for j in req]
+            got_rows = [[[int(c[i])] for c in cols] for i in range(len(cols[0]))]
+        got_x = np.ravel(np.asarray(xi.get('x', []), dtype=float)).tolist()
+        lines.append('select_rows ' + enc([req, rows]))
+        meta.append((case, got_rows, got_x, rows, req))
+    for (case, got_rows, got_x, rows, req), mo in zip(meta, run_model(lines, shards=4) if lines else []):
+        ctx.count('selections_compared')
+        if isinstance(mo, ModelError):
+            ctx.disagree('C05:model-error', case, str(mo), None); continue
+        if mo[0] != got_rows:
+            ctx.disagree('C05:SparseGrid.get_by_coord rows', case, mo[0], got_rows)
+        # oracle: a point is handed out iff every requested quantity is present there
+        want_x = [k / 8 for k, r in enumerate(rows) if all(r[j] for j in req)]
+        if got_x != want_x:
+            ctx.violate('C05:training-points-depend-on-unrequested-outputs', f'points handed out for quantities {req}: x = {got_x}; the points where all of '
+                        f'them are present: {want_x}', case)
+
+
 def run(ctx: Ctx):
     import_amisc()
     ctx.rule = ('(i) Lagrange states built by refine() on random dyadic tensor grids (1-3 dims, 1-5 nodes/dim, one incremental '
@@ -301,6 +363,8 @@ def run(ctx: Ctx):
                 'with Model/Lagr.v in exact rationals (bound 2^-30 * sum|terms|); (ii) components with non-smooth fidelity-dependent '
                 'multi-output models, 1-3 inputs, 0-2 model-fidelity dims, knots/level 1-2, random admissible index sets, train and '
                 'test mode: Component.predict versus the extracted misc_predict on grids/weights read from the component and FRESH '
-                'model calls, and versus an independent Fraction Lagrange oracle; non-trivial = more than one data point / term')
+                'model calls, and versus an independent Fraction Lagrange oracle; (iii) hand-built SparseGrid tables (stored / missing / imputed / '
+                'not-returned quantities): the points get_by_coord(y_vars, skip_nan=True) hands out versus Model/Select.v; non-trivial = more than one data point / term')
     interp_cases(ctx)
     component_cases(ctx)
+    select_cases(ctx)
